@@ -41,6 +41,8 @@ func runC22(w *World, r *Report) {
 		return
 	}
 
+	c22KeyAgreement(w, r)
+
 	// ---- R-C22-1
 	if fn := w.ssaFunc(op, "ValidateJWT"); fn == nil {
 		r.Anchor("R-C22-1", "oauth.ValidateJWT")
@@ -555,4 +557,85 @@ func c22CacheExpiry(w *World, r *Report, op *packages.Package) {
 	} else {
 		r.Discharge("R-C22-5", key, w.pos(find.Pos()), "cached identity returned only behind Now().Before(entry.Expires)")
 	}
+}
+
+// c22KeyAgreement: R-C22-6.  The revocation list is written by tokens.Blacklist / tokens.Delete and
+// read by tokens.IsIDBlacklisted (which ValidateJWT calls with the token's jti).  Writer and reader
+// must derive the stored / looked-up key from their id parameter in the same way: the set of
+// strings.* transformations applied to the parameter has to be the same in all three, otherwise an
+// id that the transformation changes (upper-case letters, surrounding blanks) is revoked under one
+// key and looked up under another.
+func c22KeyAgreement(w *World, r *Report) {
+	r.Rule("R-C22-6", "revocation key agreement: tokens.Blacklist, tokens.Delete and tokens.IsIDBlacklisted apply the same string transformations to their id parameter", 3)
+
+	tp := w.pkg("internal/language/tokens")
+	if tp == nil {
+		r.Anchor("R-C22-6", "package internal/language/tokens")
+
+		return
+	}
+
+	sets := map[string]string{}
+	pos := map[string]string{}
+
+	for _, name := range []string{"Blacklist", "Delete", "IsIDBlacklisted"} {
+		fn := w.ssaFunc(tp, name)
+		if fn == nil || len(fn.Params) == 0 {
+			r.Anchor("R-C22-6", "tokens."+name)
+
+			continue
+		}
+
+		id := fn.Params[0]
+		tr := map[string]bool{}
+
+		fromID := func(v ssa.Value) bool {
+			return derivesFrom(v, func(s ssa.Value) bool { return s == ssa.Value(id) }, func(cid string) bool { return strings.HasPrefix(cid, "strings.") })
+		}
+
+		allInstrs(fn, func(in ssa.Instruction) {
+			c, ok := in.(*ssa.Call)
+			if !ok {
+				return
+			}
+
+			cid := callID(c.Common())
+			if !strings.HasPrefix(cid, "strings.") {
+				return
+			}
+
+			switch cid {
+			case "strings.ToLower", "strings.ToUpper", "strings.TrimSpace", "strings.Trim", "strings.TrimPrefix", "strings.TrimSuffix", "strings.ReplaceAll", "strings.Replace", "strings.Title", "strings.TrimLeft", "strings.TrimRight", "strings.ToTitle":
+			default:
+				return
+			}
+
+			if len(c.Call.Args) > 0 && fromID(c.Call.Args[0]) {
+				tr[cid] = true
+			}
+		})
+
+		sets[name] = strings.Join(sortedKeys(tr), ",")
+		pos[name] = w.pos(fn.Pos())
+	}
+
+	if len(sets) != 3 {
+		return
+	}
+
+	for _, name := range []string{"Blacklist", "Delete"} {
+		key := "tokens." + name + "|same key as tokens.IsIDBlacklisted"
+		if sets[name] == sets["IsIDBlacklisted"] {
+			what := "no transformation"
+			if sets[name] != "" {
+				what = sets[name]
+			}
+
+			r.Discharge("R-C22-6", key, pos[name], what+" on both sides")
+		} else {
+			r.Violate("R-C22-6", key, pos[name], "the id is stored after {"+sets[name]+"} but looked up after {"+sets["IsIDBlacklisted"]+"}: a token whose id the transformation changes (an upper-case jti from an external issuer) is revoked under a key the validator never asks for, so it stays accepted until it expires")
+		}
+	}
+
+	r.Discharge("R-C22-6", "tokens.IsIDBlacklisted|reference", pos["IsIDBlacklisted"], "transformations: {"+sets["IsIDBlacklisted"]+"}")
 }
